@@ -843,10 +843,24 @@ class NodeMiscPart:
                     fails.append("get_random_node on an empty tree must raise IndexError")
             elif isinstance(x, tuple) or not any(x is y for y in nodes):
                 fails.append("get_random_node (real random) did not return a node of the tree")
+        # ---- Node.__eq__ / hash(node): == compares the data objects, nodes are unhashable
+        eqm = [[txt(_err(lambda a=a, b=b: a == b)) for b in nodes] for a in nodes]
+        for i, a in enumerate(nodes):
+            for j, b in enumerate(nodes):
+                want = a._data == b._data
+                if eqm[i][j] is not want or (a != b) is want:
+                    fails.append(f"node {H.nid(a)} == node {H.nid(b)} answers {eqm[i][j]!r}, the data objects compare {want}")
+        own = [txt(_err(lambda a=a: a == a._data)) for a in nodes]
+        if any(x is not True for x in own):
+            fails.append("a node does not equal its own data object")
+        hs = _err(lambda: hash(nodes[0] if nodes else root))
+        if not (isinstance(hs, tuple) and isinstance(hs[2], TypeError)):
+            fails.append(f"hash(node) = {hs!r}: a class with __eq__ and without __hash__ is unhashable")
+        eq_node_obs = [eqm, own, txt(hs) if isinstance(hs, tuple) else hs]
         names = [type(nodes[0]).__name__ if nodes else ("TypedNode" if typed else "Node"), type(root).__name__, type(tree).__name__, tree.name]
         coq = (f"(MC {H.coq_forest(root, U)} {H.coq_list(H.z(H.nid(x)) for x in reg_nodes)} {H.coq_list(H.z(d) for d in draws)} "
                f"{H.coq_bool(typed)} {H.coq_list(H.coq_text(s) for s in names)})")
-        return Case(desc=desc, coq_input=coq, impl_obs=[ent_obs, tree_obs, rnd_obs], oracle_fail=("misc: " + fails[0]) if fails else None,
+        return Case(desc=desc, coq_input=coq, impl_obs=[ent_obs, tree_obs, rnd_obs, eq_node_obs], oracle_fail=("misc: " + fails[0]) if fails else None,
                     nontrivial=n >= 1, key=H.digest(desc),
                     stats=dict(nodes=n, reg_is_preorder=ids(reg_nodes) == ids(nodes), typed=typed))
 
